@@ -75,7 +75,9 @@ var _ uuid.UUID
 //@ end
 //@ requires [wf] pwf(this)
 //@ requires [level] level >= 0 && level < 2147483648
-//@ ensures [notify-once] notified == 1 && isnil(ret)
+//@ ensures [notify-once] notified == 1
+//@ ensures [returns-nil] isnil(ret)
+//@ ensures [wf-kept] pwf(this)
 //@ ensures [exists] old(live(pix(this), id)) ==> outcome == index.ItemAlreadyExistsError && vertexOf(pix(this), id) == old(vertexOf(pix(this), id)) && live(pix(this), id) && pix(this).len == old(pix(this).len) && pix(this).bytesSize == old(pix(this).bytesSize)
 //@ ensures [stored] !old(live(pix(this), id)) ==> isnil(outcome) && live(pix(this), id) && vertexOf(pix(this), id).vector == value && vertexOf(pix(this), id).metadata == metadata && vertexOf(pix(this), id).id == id
 //@ ensures [others] forall j uuid.UUID :: j != id ==> live(pix(this), j) == old(live(pix(this), j)) && vertexOf(pix(this), j) == old(vertexOf(pix(this), j))
@@ -91,7 +93,9 @@ var _ uuid.UUID
 //@ set outcome = $arg2
 //@ end
 //@ requires [wf] pwf(this)
-//@ ensures [notify-once] notified == 1 && isnil(ret)
+//@ ensures [notify-once] notified == 1
+//@ ensures [returns-nil] isnil(ret)
+//@ ensures [wf-kept] pwf(this)
 //@ ensures [absent] !old(live(pix(this), id)) ==> outcome == index.ItemNotFoundError && !live(pix(this), id) && pix(this).len == old(pix(this).len) && pix(this).bytesSize == old(pix(this).bytesSize)
 //@ ensures [removed] old(live(pix(this), id)) ==> isnil(outcome) && !live(pix(this), id)
 //@ ensures [others] forall j uuid.UUID :: j != id ==> live(pix(this), j) == old(live(pix(this), j)) && vertexOf(pix(this), j) == old(vertexOf(pix(this), j))
@@ -109,7 +113,9 @@ var _ uuid.UUID
 //@ end
 //@ requires [wf] pwf(this)
 //@ requires [own-map] metadata != nil ==> forall v *index.hnswVertex :: v.metadata != metadata
-//@ ensures [notify-once] notified == 1 && isnil(ret)
+//@ ensures [notify-once] notified == 1
+//@ ensures [returns-nil] isnil(ret)
+//@ ensures [wf-kept] pwf(this)
 //@ ensures [absent] !old(live(pix(this), id)) ==> outcome == index.ItemNotFoundError && !live(pix(this), id) && pix(this).len == old(pix(this).len) && pix(this).bytesSize == old(pix(this).bytesSize)
 //@ ensures [updated] old(live(pix(this), id)) ==> isnil(outcome) && live(pix(this), id) && vertexOf(pix(this), id).vector == value && vertexOf(pix(this), id).metadata != nil && vertexOf(pix(this), id).id == id
 //@ ensures [merge-new-wins] old(live(pix(this), id)) ==> forall k string :: old(has(metadata0, k)) ==> has(vertexOf(pix(this), id).metadata, k) && vertexOf(pix(this), id).metadata[k] == old(metadata0[k])
@@ -170,7 +176,9 @@ var _ uuid.UUID
 //@ requires [wf] pwf(this)
 //@ requires [wellformed] wfItems(items)
 //@ requires [levels] forall i int :: 0 <= i && i < len(items) ==> items[i].Level >= 0
-//@ ensures [notify-once] notified == 1 && isnil(ret) && istype(outcome, partitionBatchResult)
+//@ ensures [notify-once] notified == 1 && istype(outcome, partitionBatchResult)
+//@ ensures [returns-nil] isnil(ret)
+//@ ensures [wf-kept] pwf(this)
 //@ ensures [all-stored] forall i int :: 0 <= i && i < len(items) ==> live(pix(this), itemId(items, i))
 //@ ensures [others] forall j uuid.UUID :: !inBatch(items, j, len(items)) ==> live(pix(this), j) == old(live(pix(this), j)) && vertexOf(pix(this), j) == old(vertexOf(pix(this), j))
 //@ ensures [errors-were-present] forall j uuid.UUID :: has(outcome.(partitionBatchResult), j) ==> inBatch(items, j, len(items))
@@ -200,7 +208,9 @@ var _ uuid.UUID
 //@ end
 //@ requires [wf] pwf(this)
 //@ requires [wellformed] wfItems(items)
-//@ ensures [notify-once] notified == 1 && isnil(ret) && istype(outcome, partitionBatchResult)
+//@ ensures [notify-once] notified == 1 && istype(outcome, partitionBatchResult)
+//@ ensures [returns-nil] isnil(ret)
+//@ ensures [wf-kept] pwf(this)
 //@ ensures [all-removed] forall i int :: 0 <= i && i < len(items) ==> !live(pix(this), itemId(items, i))
 //@ ensures [others] forall j uuid.UUID :: !inBatch(items, j, len(items)) ==> live(pix(this), j) == old(live(pix(this), j)) && vertexOf(pix(this), j) == old(vertexOf(pix(this), j))
 //@ ensures [absent-ids-fail] forall i int :: 0 <= i && i < len(items) && !old(live(pix(this), itemId(items, i))) ==> has(outcome.(partitionBatchResult), itemId(items, i)) && outcome.(partitionBatchResult)[itemId(items, i)] == index.ItemNotFoundError
@@ -227,7 +237,9 @@ var _ uuid.UUID
 //@ end
 //@ requires [wf] pwf(this)
 //@ requires [wellformed] wfItems(items)
-//@ ensures [notify-once] notified == 1 && isnil(ret) && istype(outcome, partitionBatchResult)
+//@ ensures [notify-once] notified == 1 && istype(outcome, partitionBatchResult)
+//@ ensures [returns-nil] isnil(ret)
+//@ ensures [wf-kept] pwf(this)
 //@ ensures [others] forall j uuid.UUID :: !inBatch(items, j, len(items)) ==> live(pix(this), j) == old(live(pix(this), j)) && vertexOf(pix(this), j) == old(vertexOf(pix(this), j))
 //@ ensures [liveness-kept] forall j uuid.UUID :: live(pix(this), j) == old(live(pix(this), j))
 //@ ensures [absent-ids-fail] forall i int :: 0 <= i && i < len(items) && !old(live(pix(this), itemId(items, i))) ==> has(outcome.(partitionBatchResult), itemId(items, i)) && outcome.(partitionBatchResult)[itemId(items, i)] == index.ItemNotFoundError
@@ -262,11 +274,30 @@ var _ uuid.UUID
 //@ ghost decoded int = 0
 //@ at call proto.Unmarshal
 //@ assume [wellformed-entry] isnil($ret0) ==> len(change.NotificationId) == 16 && len(change.Id) == 16 && change.Level >= 0 && wfItems(change.BatchItems) && (forall i int :: 0 <= i && i < len(change.BatchItems) ==> change.BatchItems[i].Level >= 0) && (change.Metadata != nil ==> forall v *index.hnswVertex :: v.metadata != change.Metadata)
-//@ set decoded = 1
+//@ set decoded = ite(isnil($ret0), 1, 0)
+//@ end
+//@ at call partition).insertValue
+//@ set notified = notified + 1
+//@ end
+//@ at call partition).updateValue
+//@ set notified = notified + 1
+//@ end
+//@ at call partition).deleteValue
+//@ set notified = notified + 1
+//@ end
+//@ at call partition).batchInsertValue
+//@ set notified = notified + 1
+//@ end
+//@ at call partition).batchUpdateValue
+//@ set notified = notified + 1
+//@ end
+//@ at call partition).batchDeleteValue
+//@ set notified = notified + 1
 //@ end
 //@ requires [wf] pwf(this)
-//@ ensures [never-fails] decoded == 1 ==> isnil(ret) || notified == 0
-//@ ensures [applies] decoded == 1 && isnil(ret) ==> pwf(this)
+//@ ensures [never-fails] decoded == 1 ==> isnil(ret)
+//@ ensures [applies-once] decoded == 1 && change.Type >= 0 && change.Type <= 5 ==> notified == 1
+//@ ensures [wf-kept] decoded == 1 ==> pwf(this)
 //@ modifies *
 
 // ---------------------------------------------------------------------------------------------
